@@ -50,6 +50,18 @@ def open_file_with_detected_encoding(filename, default_encoding='utf-8'):
             encoding = enc
             offset = len(bom)
             break
+    else:
+        # No BOM. UTF-16 and UTF-32 files can still be told apart from UTF-8 when they start with an ASCII character,
+        # like the header of a CSV file does, because of where the zero bytes are.
+        if len(raw) == 4:
+            if raw[0] and raw[1:] == b"\x00\x00\x00":
+                encoding = "utf-32-le"
+            elif raw[:3] == b"\x00\x00\x00" and raw[3]:
+                encoding = "utf-32-be"
+            elif raw[0] and not raw[1] and raw[2] and not raw[3]:
+                encoding = "utf-16-le"
+            elif not raw[0] and raw[1] and not raw[2] and raw[3]:
+                encoding = "utf-16-be"
 
     # Re-open the file with the detected encoding and skip the bom.
     f = open(filename, 'r', encoding=encoding)
